@@ -169,6 +169,7 @@ var structFields = map[string]map[string]ast.Expr{} // struct -> field -> type
 var constVals = map[string]ast.Expr{}               // package constants with a literal value
 var pkgVars = map[string]ast.Expr{}                 // package variables: name -> declared type or initial value
 var pkgVarTypes = map[string]ast.Expr{}             // package variables with a declared type
+var promotedFrom = map[string]map[string]string{}   // struct -> promoted field -> the embedded struct that declares it
 var embedded = map[string][]string{}                // struct -> embedded package structs (their fields are promoted)
 var isTarget = map[string]bool{}
 var extUsed = map[string]string{} // Ext field -> Lean type
@@ -247,6 +248,9 @@ func zero(t string) string {
 		return "(none : GoErr)"
 	case t == "GoAccessor":
 		return "(default : GoAccessor)"
+	case t == "GoFloat":
+		// the zero value of a float64 is the literal 0 (floats are opaque: literals are `float_lit` of their text)
+		return "(" + ext("float.lit", "String → GoFloat") + " \"0\")"
 	case strings.HasPrefix(t, "List "):
 		return "([] : " + t + ")"
 	case strings.HasPrefix(t, "Option "):
@@ -742,6 +746,9 @@ func (t *tr) call(c *ast.CallExpr) (string, bool) {
 // on-demand targets: (callee, caller) pairs met in the last pass; callees already tried
 var wanted [][2]string
 var onDemandTried = map[string]bool{}
+
+// why an on-demand callee was dropped again (reported on stdout and in the caller's NOT TRANSLATED comment)
+var onDemandWhy = map[string]string{}
 
 // addOnDemand inserts every wanted callee before its caller in `targets`; false when nothing was added
 func addOnDemand() bool {
@@ -1807,6 +1814,10 @@ func main() {
 				if _, ok := structFields[st][f]; !ok {
 					structFields[st][f] = structFields[e][f]
 					structFieldOrder[st] = append(structFieldOrder[st], f)
+					if promotedFrom[st] == nil {
+						promotedFrom[st] = map[string]string{}
+					}
+					promotedFrom[st][f] = e
 				}
 			}
 		}
@@ -1821,6 +1832,9 @@ func main() {
 		wanted = nil
 		for _, k := range targets {
 			if _, why := translate(k); why != "" && onDemandTried[k] {
+				if isTarget[k] {
+					onDemandWhy[k] = why
+				}
 				isTarget[k] = false
 			}
 		}
@@ -1847,6 +1861,11 @@ func main() {
 		text, why := translate(k)
 		if why != "" {
 			isTarget[k] = false
+			for callee, w := range onDemandWhy {
+				if why == "call of "+callee {
+					why += " (an un-listed function that is not translatable itself: " + w + ")"
+				}
+			}
 			defs = append(defs, fmt.Sprintf("/- NOT TRANSLATED `%s`: %s -/\n", k, why))
 			status = append(status, fmt.Sprintf("skipped %s: %s", k, why))
 			continue
